@@ -35,6 +35,8 @@ OPAQUE = [
     "sorted(xs, key=lambda {p}: -{p})", "(lambda: {v})()", "', '.join(str({p}) for {p} in xs)", "max(xs + [{v}])", "{{n: n * n for n in (1, 2)}}[2]",
     "[({p}, q) for {p} in (1, 2) for q in 'ab'][1]", "{v} if {v} else 'none'", "'%s/%s' % ({v}, {v})", "(lambda {p}, *a, **k: ({p}, a, k))(1, 2, z=3)",
     "any({p} > 2 for {p} in xs)", "{{{v}, 1}} == {{1, {v}}}",
+    # default values are evaluated in the enclosing scope (the template variables), also when the parameter has the same name
+    "(lambda {v}={v}: {v} * 3)()", "(lambda a, b={v}: a + b)(1)", "(lambda *, {v}={v}: {v})()", "(lambda {p}={v}: (lambda q={p}: q)())()",
 ]
 NAMEPOOL = ['id', 'len', 'x', 'item', 'type', 'n', 'key']
 
@@ -149,6 +151,60 @@ def prefixed_pipe_case(rng):
     return src, result, log
 
 
+ONCE_EXPRS = [("R('a', 'A')", ['a'], 'A'), ("R('b', 'B')", ['b'], 'B'), ("nope | R('c', 'C')", ['c'], 'C'),
+              ("R('d', None, 'KeyError') | R('e', 'E')", ['d', 'e'], 'E'), ("R('f', 'F').lower()", ['f'], 'f')]
+
+
+def once_case(rng):
+    """the same expression text at several sites - also twice inside one text node, one attribute value, one string: expression:
+    every occurrence that is reached is evaluated once per reach, in document order; unreached ones never"""
+    pool = rng.sample(ONCE_EXPRS, rng.randint(1, 3))
+    parts, out, log = [], [], []
+
+    def pick():
+        return rng.choice(pool)
+    for _ in range(rng.randint(2, 5)):
+        site = rng.choice(['text', 'text', 'attr', 'string', 'define', 'dead', 'repeat', 'sq-attr'])
+        es = [pick() for _ in range(rng.randint(1, 3))]
+        if rng.random() < 0.5:
+            es.append(es[0])            # the same text again inside the same run
+        if site == 'text':
+            parts.append('<p>' + ' '.join('${%s}' % e[0] for e in es) + '</p>')
+            out.append('<p>' + ' '.join(e[2] for e in es) + '</p>')
+            for e in es:
+                log += e[1]
+        elif site in ('attr', 'sq-attr'):
+            q = '"' if site == 'attr' else "'"
+            if q == "'":
+                es = [e for e in es if "'" not in e[0]] or []
+            parts.append('<a title=%s%s%s>x</a>' % (q, ' x '.join('${%s}' % e[0] for e in es), q))
+            out.append('<a title=%s%s%s>x</a>' % (q, ' x '.join(e[2] for e in es), q))
+            for e in es:
+                log += e[1]
+        elif site == 'string':
+            es = [e for e in es if '|' not in e[0]] or [ONCE_EXPRS[0]]
+            parts.append('<b tal:content="string:%s">x</b>' % '-'.join('${%s}' % e[0] for e in es))
+            out.append('<b>' + '-'.join(e[2] for e in es) + '</b>')
+            for e in es:
+                log += e[1]
+        elif site == 'define':
+            e = es[0]
+            parts.append('<i tal:define="v %s">${v}${v}</i>' % e[0])
+            out.append('<i>%s%s</i>' % (e[2], e[2]))
+            log += e[1]
+        elif site == 'dead':
+            parts.append('<u tal:condition="False">' + ' '.join('${%s}' % e[0] for e in es) + '</u>')
+        else:
+            # an element of the tal namespace: no tags, no separator between the repetitions
+            parts.append('<tal:s repeat="i (1, 2)">' + ''.join('${%s}' % e[0] for e in es) + '</tal:s>')
+            one = ''.join(e[2] for e in es)
+            out.append(one + one)
+            for _ in range(2):
+                for e in es:
+                    log += e[1]
+    return ''.join(parts), ''.join(out), log
+
+
 class Both:
     """has attributes and items; some names only as attribute, some only as item, some as both"""
     def __init__(self):
@@ -214,6 +270,15 @@ def oracle(ctx):
         if not ok:
             ctx.violation('pipe semantics: first alternative not raising a lookup-type exception / propagation / evaluation order',
                           {'src': src, 'vars': [['R', {'fn': 'R'}]]}, expected={'result': result, 'log': log}, actual=impl)
+    # once per reach, in document order - identical expression texts included
+    for _ in range(ctx.budget(500, 20000)):
+        src, exp, log = once_case(ctx.rng)
+        impl = pipeline.run_impl({'src': src, 'vars': [['R', {'fn': 'R'}]]})
+        ctx.count('evaluations')
+        nt += 1 if len(log) > len(set(log)) else 0
+        if impl.get('out') != exp or impl.get('log') != log:
+            ctx.violation('every reached expression occurrence is evaluated exactly once per reach, in document order (identical texts included)',
+                          {'src': src, 'vars': [['R', {'fn': 'R'}]]}, expected={'out': exp, 'log': log}, actual=impl)
     # opaque Python against plain eval
     for _ in range(ctx.budget(800, 30000)):
         c = opaque_case(ctx.rng)
